@@ -22,8 +22,8 @@ HYPS = [("Tridimensional", 6), ("PlaneStrain", 4), ("PlaneStress", 4), ("Axisymm
 #: constraints added by MTest::completeInitialisation for strain based behaviours: (kind, component), value 0
 IMPLIED = {"PlaneStrain": [("g", 2)], "PlaneStress": [("g", 2), ("f", 2)],
            "AxisymmetricalGeneralisedPlaneStress": [("g", 1), ("f", 1)]}
-FORMULAS = [("a*t+b", lambda t, a, b: a * t + b), ("2*t+1", lambda t, a, b: 2 * t + 1),
-            ("a-b*t", lambda t, a, b: a - b * t), ("(a+b)/4", lambda t, a, b: (a + b) / 4)]
+FORMULAS = [("a*t+x", lambda t, a, b: a * t + b), ("2*t+1", lambda t, a, b: 2 * t + 1),
+            ("a-x*t", lambda t, a, b: a - b * t), ("(a+x)/4", lambda t, a, b: (a + b) / 4), ("x+t", lambda t, a, b: b + t)]
 
 
 def pairs(pts):
@@ -69,7 +69,7 @@ def ev_text(e):
         return "%s %s" % (k, hx(e[1]))
     if k in ("l", "m"):
         return "%s %d %s" % (k, len(e[1]), pairs(e[1]))
-    return "F %s 2 a %s b %s" % (e[1], ev_text(e[3]), ev_text(e[4]))
+    return "F %s 2 a %s x %s" % (e[1], ev_text(e[3]), ev_text(e[4]))
 
 
 def gen_evolution(rng, times, scale, depth=0):
